@@ -1,9 +1,15 @@
 (* C03 — Indexing and diagonal extraction match torch indexing of the dense matrix.
-   Only theorem statements live here; each is closed by `exact` of a lemma proved in Proofs*.v. *)
+   Only theorem statements live here; each is closed by `exact` of a lemma proved in Proofs*.v.
+   Model.v holds (1) Python int/slice semantics, (2) the SPEC of torch indexing on dense tensors of any rank
+   (validated against the running torch on every run), (3) transcriptions of linear_operator/utils/getitem.py,
+   LinearOperator.__getitem__ and the per-class index arithmetic of _get_indices / _getitem. *)
 From Coq Require Import List ZArith Bool Arith Lia.
 Import ListNotations.
-Require Import C03.Model C03.Proofs.
+Require Import C03.Model C03.Proofs C03.ProofsSlice C03.ProofsSize C03.ProofsClass C03.ProofsCat.
 Open Scope Z_scope.
+
+(* ===================================================================================== *)
+(** Python index normalisation *)
 
 (* slice.indices(n) for a positive step: the k-th selected position start + k*step lies inside the
    dimension, for every k below len(range(start, stop, step)); all sizes, all bounds, all steps > 0 *)
@@ -11,3 +17,169 @@ Theorem C03_slice_in_range : forall a b s n k,
   0 <= n -> 0 < odefault 1 s -> 0 <= k < slice_len a b s n ->
   let '(lo, hi, st) := slice_indices a b s n in 0 <= lo + k * st < n.
 Proof. exact slice_in_range. Qed.
+
+(* ... and every position of [start, stop) on the stride is selected (nothing is skipped) *)
+Theorem C03_slice_complete : forall a b s n x, 0 <= n -> 0 < odefault 1 s ->
+  let '(lo, hi, st) := slice_indices a b s n in
+  lo <= x < hi -> (x - lo) mod st = 0 -> exists k, 0 <= k < slice_len a b s n /\ x = lo + k * st.
+Proof. exact slice_complete. Qed.
+
+(* an in-range (possibly negative) int addresses a position of the dimension, congruent to it mod n *)
+Theorem C03_wrap_in_range : forall n i, in_range n i = true -> 0 <= wrap n i < n /\ (wrap n i) mod n = i mod n.
+Proof. intros n i H. split; [exact (wrap_in_range n i H)|exact (wrap_congr n i H)]. Qed.
+
+(* ===================================================================================== *)
+(** __getitem__: python ints in the row / column position are rewritten as slices and squeezed *)
+
+(* pinned code, slice(i, i + 1): selects exactly the element the int selects for every in-range i EXCEPT -1 *)
+Theorem C03_int_as_slice_pinned_partial : forall n i, in_range n i = true -> i <> -1 ->
+  slice_sel (int_as_slice Pinned i) n = Some (wrap n i, 1).
+Proof. exact int_as_slice_pinned_sel. Qed.
+
+(* ... and for i = -1 it is the empty slice -1:0, for every size (known finding C03-int-m1-matrix) *)
+Theorem C03_int_as_slice_pinned_refuted : forall n, 0 < n ->
+  in_range n (-1) = true /\ slice_sel (int_as_slice Pinned (-1)) n = Some (n - 1, 0).
+Proof.
+  intros n Hn. split; [|exact (int_as_slice_pinned_m1 n Hn)].
+  unfold in_range. apply andb_true_iff. split; [apply Z.leb_le|apply Z.ltb_lt]; lia.
+Qed.
+
+(* repaired code, slice(i, i + 1 or None): one element at the normalised position, for all sizes and all in-range i;
+   at plan level the slice plan reads the same source coordinate as the int plan *)
+Theorem C03_int_as_slice_fixed : forall n i, in_range (Z.of_nat n) i = true ->
+  slice_sel (int_as_slice Fixed i) (Z.of_nat n) = Some (wrap (Z.of_nat n) i, 1) /\
+  plan_of n (IInt i) = Some (PFix (Z.to_nat (wrap (Z.of_nat n) i))) /\
+  plan_of n (int_as_slice Fixed i) = Some (PSl (wrap (Z.of_nat n) i) 1 1).
+Proof.
+  intros n i H. split; [exact (int_as_slice_fixed_sel _ _ H)|exact (plan_int_as_slice_fixed n i H)].
+Qed.
+
+(* ===================================================================================== *)
+(** utils/getitem.py *)
+
+(* _compute_getitem_size returns the shape of torch indexing — all ranks, all index tuples of ints / slices /
+   tensors (any number, any rank, adjacent or not), debug on or off — whenever the index is valid for the shape *)
+Theorem C03_compute_getitem_size : forall debug shape its ps,
+  plans_of shape its = Some ps ->
+  compute_getitem_size debug shape its = option_map (out_shape ps) (bcast_all (tshapes ps) []).
+Proof. exact compute_getitem_size_correct. Qed.
+
+Corollary C03_compute_getitem_size_torch : forall debug t its r,
+  torch_index_norm t its = Some r -> compute_getitem_size debug (tshape t) its = Some (tshape r).
+Proof. exact compute_getitem_size_torch. Qed.
+
+(* _is_tensor_index_moved_to_start decides where torch puts the broadcast block of the advanced indices:
+   true -> in front; false -> in place, after the slices that precede the first tensor (ints are transparent) *)
+Theorem C03_moved_to_start : forall its,
+  (is_moved_to_start its = true -> block_pos (ikinds its) = 0%nat) /\
+  (is_moved_to_start its = false -> block_pos (ikinds its) = count_while negb (ikinds its)).
+Proof. exact moved_to_start_correct. Qed.
+
+(* ===================================================================================== *)
+(** per-class index arithmetic of _get_indices *)
+
+(* Toeplitz: (r - c).fmod(n).abs() is |r - c| and addresses the stored column *)
+Theorem C03_toeplitz : forall n r c, 0 <= r < n -> 0 <= c < n ->
+  toeplitz_index n r c = Z.abs (r - c) /\ 0 <= toeplitz_index n r c < n.
+Proof. exact toeplitz_index_correct. Qed.
+
+(* Kronecker product of ANY number of factors of any sizes: the running floor-div / fmod digit extraction inverts
+   the composition of a Kronecker index, so entry (compose rd, compose cd) is the product of the factor entries *)
+Theorem C03_kron_digits : forall sizes ds, digits_ok sizes ds ->
+  kron_digits sizes (zprod sizes) (compose sizes ds) = ds.
+Proof. exact kron_digits_compose. Qed.
+
+Theorem C03_kron_get_indices : forall ms ns fs rd cd, digits_ok ms rd -> digits_ok ns cd ->
+  kron_get_indices ms ns fs (compose ms rd) (compose ns cd) = prod_entries fs rd cd.
+Proof. exact kron_get_indices_correct. Qed.
+
+(* ... and every in-range index is such a composition, so all entries are covered *)
+Theorem C03_kron_all_entries : forall sizes, Forall (fun s => 0 < s) sizes -> forall x, 0 <= x < zprod sizes ->
+  exists ds, digits_ok sizes ds /\ compose sizes ds = x.
+Proof. exact compose_surjective. Qed.
+
+(* BlockDiag (blocks m x n): entry (bi*m + i, bj*n + j) is base[bi][i, j] on the diagonal blocks, 0 elsewhere *)
+Theorem C03_blockdiag : forall m n base bi i bj j, 0 <= bi -> 0 <= i < m -> 0 <= bj -> 0 <= j < n ->
+  blockdiag_get_indices m n base (bi * m + i) (bj * n + j) = if bi =? bj then base bi i j else 0.
+Proof. exact blockdiag_get_indices_correct. Qed.
+
+(* BlockInterleaved (k blocks): entry (i*k + bi, j*k + bj) is base[bi][i, j] if bi = bj, 0 elsewhere *)
+Theorem C03_blockinterleaved : forall k base bi i bj j, 0 <= bi < k -> 0 <= i -> 0 <= bj < k -> 0 <= j ->
+  blockinterleaved_get_indices k base (i * k + bi) (j * k + bj) = if bi =? bj then base bi i j else 0.
+Proof. exact blockinterleaved_get_indices_correct. Qed.
+
+(* BatchRepeat: entry b of a batch dimension repeated `rep` times is entry b.fmod(size) of the base *)
+Theorem C03_batchrepeat : forall (l : list Z) rep b, (b < rep * length l)%nat ->
+  nth b (concat (repeat l rep)) 0 = nth (Z.to_nat (batchrepeat_index (Z.of_nat (length l)) (Z.of_nat b))) l 0.
+Proof. intros. apply batchrepeat_index_correct. assumption. Qed.
+
+(* Masked: arange(n)[mask] maps the i-th kept row/column to its position in the base operator *)
+Theorem C03_masked : forall mask (l : list Z) i, length mask = length l -> (i < length (select mask l))%nat ->
+  nth i (select mask l) 0 = nth (Z.to_nat (nth i (mask_positions mask 0) 0)) l 0.
+Proof. intros. apply masked_get_indices_correct; assumption. Qed.
+
+(* Cat: idx_to_tensor_idx / cat_dim_cum_sizes locate every index of the concatenated dimension in the right
+   component at the right local index — any number of components of any sizes (also empty ones) *)
+Theorem C03_cat_locate : forall (pieces : list (list Z)) x, (x < length (concat pieces))%nat ->
+  let '(k, i) := cat_locate (map (@length Z) pieces) x in
+  (k < length pieces)%nat /\ (i < length (nth k pieces []))%nat /\ nth x (concat pieces) 0 = nth i (nth k pieces []) 0.
+Proof. intros. apply cat_locate_correct. assumption. Qed.
+
+(* Cat, tensor index on the concatenated dimension: evaluating maximal runs per component and concatenating
+   equals the element-wise lookup, and every run addresses one component only *)
+Theorem C03_cat_runs : forall (tbl : nat -> nat) (g : nat -> nat -> Z) l,
+  concat (map (eval_run g) (runs tbl l)) = map (fun x => g (tbl x) x) l /\
+  Forall (fun r => Forall (fun x => tbl x = fst r) (snd r)) (runs tbl l).
+Proof. intros. split; [apply runs_correct|apply runs_same_component]. Qed.
+
+(* Cat, step-less slice on the concatenated dimension, repaired _split_slice (slice.indices): the per-component
+   slices concatenate to the slice of the concatenation, for every non-empty slice incl. stop == size,
+   negative and over-long bounds *)
+Theorem C03_cat_split_slice_fixed : forall (pieces : list (list Z)) a b,
+  let total := Z.of_nat (length (concat pieces)) in
+  let '(lo, hi, _) := slice_indices a b None total in
+  lo < hi ->
+  concat (map (piece_segZ pieces) (split_slice Fixed (map (@length Z) pieces) a b)) =
+  seg (concat pieces) (Z.to_nat lo) (Z.to_nat hi).
+Proof. intros. apply split_slice_fixed_correct. Qed.
+
+(* pinned _split_slice (x % cat_size): the same bounds — hence the same result — exactly when -size <= x < size *)
+Theorem C03_cat_split_slice_pinned_partial : forall a b n, 0 < n ->
+  (forall x, a = Some x -> - n <= x < n) -> (forall x, b = Some x -> - n <= x < n) ->
+  split_bounds Pinned a b n = split_bounds Fixed a b n.
+Proof. exact split_bounds_pinned_ok. Qed.
+
+(* ... and wrong at stop == size (known finding C03-cat-slice-bounds) *)
+Theorem C03_cat_split_slice_pinned_refuted :
+  exists (pieces : list (list Z)) a b,
+    let total := Z.of_nat (length (concat pieces)) in
+    let '(lo, hi, _) := slice_indices a b None total in
+    lo < hi /\
+    concat (map (piece_segZ pieces) (split_slice Pinned (map (@length Z) pieces) a b)) <>
+    seg (concat pieces) (Z.to_nat lo) (Z.to_nat hi).
+Proof. exact split_slice_pinned_refuted. Qed.
+
+(* ===================================================================================== *)
+(** non-vacuity: the hypotheses are satisfiable on concrete non-trivial inputs *)
+
+Example C03_ex_size :       (* x[:, 0, :, idx] on a (2,3,4,5) tensor: python int applied first, block stays in place *)
+  compute_getitem_size true [2;3;4;5]%nat [full; IInt 0; full; ITensor [3]%nat [0;1;4]] = Some [2;4;3]%nat
+  /\ exists ps, plans_of [2;3;4;5]%nat [full; IInt 0; full; ITensor [3]%nat [0;1;4]] = Some ps.
+Proof. split; [vm_compute; reflexivity|eexists; vm_compute; reflexivity]. Qed.
+
+Example C03_ex_size_front : (* non-adjacent tensor indices: block moves to the front *)
+  compute_getitem_size false [2;3;4]%nat [ITensor [2;1]%nat [0;1]; ISlice (Some 1) None (Some 2); ITensor [2]%nat [3;0]]
+  = Some [2;2;1]%nat.
+Proof. vm_compute. reflexivity. Qed.
+
+Example C03_ex_kron : digits_ok [2;3;2] [1;2;0] /\ compose [2;3;2] [1;2;0] = 10 /\
+  kron_digits [2;3;2] 12 10 = [1;2;0].
+Proof. split; [repeat constructor; lia|split; vm_compute; reflexivity]. Qed.
+
+Example C03_ex_cat : (* three components of sizes 2, 0, 3: index 3 is local index 1 of component 2 *)
+  cat_locate [2;0;3]%nat 3 = (2, 1)%nat /\
+  split_slice Fixed [2;2;2]%nat (Some 1) (Some 6) = [(0%nat, 1, 2); (1%nat, 0, 2); (2%nat, 0, 2)].
+Proof. split; vm_compute; reflexivity. Qed.
+
+Example C03_ex_int_slice : in_range 4 (-4) = true /\ slice_sel (int_as_slice Pinned (-4)) 4 = Some (0, 1).
+Proof. split; vm_compute; reflexivity. Qed.
